@@ -63,6 +63,13 @@ def run(ch: Checker) -> None:
     idle_predicate_check(ch, 'C01.9')
     tc = prog.class_named('TcpConnection')
     conn_classes = [tc] + prog.subclasses(tc)
+    # the element counter is whatever has_buffer() compares with 0 (named _num_buffer in the tree the rules were written on)
+    CNT = '_num_buffer'
+    for s_ in walk_no_nested(prog.own_method('TcpConnection', 'has_buffer').node):
+        if isinstance(s_, ast.Return) and isinstance(s_.value, ast.Compare) and isinstance(s_.value.left, ast.Attribute) and attr_chain(s_.value.left.value) == 'self' \
+                and len(s_.value.comparators) == 1 and isinstance(s_.value.comparators[0], ast.Constant) and s_.value.comparators[0].value == 0:
+            CNT = s_.value.left.attr
+    CNT_CHAIN = 'self.' + CNT
 
     # ---------------- C01.1
     q = prog.own_method('TcpConnection', 'queue')
@@ -77,9 +84,9 @@ def run(ch: Checker) -> None:
             continue
         npq += 1
         sym = Sym(p)
-        effs = [(i, chn, kind, node) for i, st in p.stmts() for chn, kind, node in attr_effects(st) if chn in ('self.buffer', 'self._num_buffer')]
+        effs = [(i, chn, kind, node) for i, st in p.stmts() for chn, kind, node in attr_effects(st) if chn in ('self.buffer', CNT_CHAIN)]
         bufs = [(i, kind, node) for i, chn, kind, node in effs if chn == 'self.buffer']
-        cnts = [(i, kind, node) for i, chn, kind, node in effs if chn == 'self._num_buffer']
+        cnts = [(i, kind, node) for i, chn, kind, node in effs if chn == CNT_CHAIN]
         good_buf = False
         if len(bufs) == 1:
             i, kind, node = bufs[0]
@@ -114,7 +121,7 @@ def run(ch: Checker) -> None:
         send_steps = [(i, n, lab) for i, n, lab in p.executed() if n.kind == 'stmt' and any(isinstance(c, ast.Call) and attr_chain(c.func) == 'self.send' for c in walk_no_nested(n.ast))]  # type: ignore[arg-type]
         if not send_steps:
             # path without send: must not touch the buffer
-            effs = [1 for i, st in p.stmts() for chn, kind, node in attr_effects(st) if chn in ('self.buffer', 'self._num_buffer')]
+            effs = [1 for i, st in p.stmts() for chn, kind, node in attr_effects(st) if chn in ('self.buffer', CNT_CHAIN)]
             if effs:
                 problems.append(('flush() edits the buffer on a path that sends nothing', p.describe(20)))
             continue
@@ -124,8 +131,8 @@ def run(ch: Checker) -> None:
         si, snode, slab = send_steps[0]
         call = [c for c in walk_no_nested(snode.ast) if isinstance(c, ast.Call) and attr_chain(c.func) == 'self.send'][0]  # type: ignore[arg-type]
         arg = sym.value(call.args[0], si) if call.args else None
-        effs_after = [(i, chn, kind, node) for i, st in p.stmts() for chn, kind, node in attr_effects(st) if chn in ('self.buffer', 'self._num_buffer') and i > si]
-        effs_before = [(i, chn, kind, node) for i, st in p.stmts() for chn, kind, node in attr_effects(st) if chn in ('self.buffer', 'self._num_buffer') and i < si]
+        effs_after = [(i, chn, kind, node) for i, st in p.stmts() for chn, kind, node in attr_effects(st) if chn in ('self.buffer', CNT_CHAIN) and i > si]
+        effs_before = [(i, chn, kind, node) for i, st in p.stmts() for chn, kind, node in attr_effects(st) if chn in ('self.buffer', CNT_CHAIN) and i < si]
         if effs_before:
             problems.append(('flush() edits the buffer before sending', p.describe(20)))
         if slab == 'exc':
@@ -171,7 +178,7 @@ def run(ch: Checker) -> None:
         pops = [(i, kind, node) for i, chn, kind, node in effs_after if chn == 'self.buffer' and kind in ('call:pop', 'delitem')]
         tails = [(i, kind, node) for i, chn, kind, node in effs_after if chn == 'self.buffer' and kind == 'item']
         others = [(i, kind, node) for i, chn, kind, node in effs_after if chn == 'self.buffer' and kind not in ('call:pop', 'delitem', 'item')]
-        cnts = [(i, kind, node) for i, chn, kind, node in effs_after if chn == 'self._num_buffer']
+        cnts = [(i, kind, node) for i, chn, kind, node in effs_after if chn == CNT_CHAIN]
         if others:
             problems.append(('flush() edits the buffer with %s after sending' % others[0][1], p.describe(20)))
             continue
@@ -222,7 +229,7 @@ def run(ch: Checker) -> None:
     # ---------------- C01.3
     for c in conn_classes:
         for fn in c.methods.values():
-            effs_any = [1 for chn, kind, node in attr_effects(fn.node) if chn in ('self.buffer', 'self._num_buffer')]
+            effs_any = [1 for chn, kind, node in attr_effects(fn.node) if chn in ('self.buffer', CNT_CHAIN)]
             if not effs_any or fn.name in ('__init__',):
                 continue
             g = cfg_of(fn, prog)
@@ -252,7 +259,7 @@ def run(ch: Checker) -> None:
                                 pass
                             else:
                                 dl += 99
-                        elif chn == 'self._num_buffer':
+                        elif chn == CNT_CHAIN:
                             if kind == 'augstore' and norm(node.value) == '1':  # type: ignore[attr-defined]
                                 dc += 1 if isinstance(node.op, ast.Add) else -1  # type: ignore[attr-defined]
                             elif kind == 'store':
@@ -267,7 +274,7 @@ def run(ch: Checker) -> None:
             ch.check(bad3 is None and npaths > 0, 'C01.3', fn, 'counter/list agreement', 'list and counter move together on %d path(s)' % npaths, bad3[0] if bad3 else 'no path', witness=bad3[1] if bad3 else None)
     hb = prog.own_method('TcpConnection', 'has_buffer')
     rets = [norm(s.value) for s in walk_no_nested(hb.node) if isinstance(s, ast.Return) and s.value is not None]
-    ch.check(rets in (['self._num_buffer != 0'], ['self._num_buffer > 0'], ['len(self.buffer) > 0'], ['len(self.buffer) != 0'], ['bool(self.buffer)']), 'C01.3', hb, 'has_buffer',
+    ch.check(rets in (['%s != 0' % CNT_CHAIN], ['%s > 0' % CNT_CHAIN], ['len(self.buffer) > 0'], ['len(self.buffer) != 0'], ['bool(self.buffer)']), 'C01.3', hb, 'has_buffer',
              'has_buffer() is `%s`' % (rets[0] if rets else ''), 'has_buffer() returns %s: pending output is no longer what it reports' % rets)
 
     # ---------------- C01.4
@@ -278,7 +285,7 @@ def run(ch: Checker) -> None:
                 continue
             for chn, kind, node in attr_effects(fn.node):
                 parts = chn.split('.')
-                if parts[-1] in ('buffer', '_num_buffer') and len(parts) >= 2 and parts[-2] in CONN_FIELDS:
+                if parts[-1] in ('buffer', CNT) and len(parts) >= 2 and parts[-2] in CONN_FIELDS:
                     out.append((fn, node, '%s %s' % (kind, chn)))
         return out
     # positive example: must be flagged on every run
